@@ -42,6 +42,16 @@ func RunOracles(w *World, spec Spec) error {
 			return err
 		}
 	}
+	if spec.Has("order") {
+		if err := OOrder(w); err != nil {
+			return err
+		}
+	}
+	if spec.Has("iter") {
+		if err := OIter(w); err != nil {
+			return err
+		}
+	}
 	if spec.Has("inline") {
 		if err := OInline(w); err != nil {
 			return err
@@ -51,6 +61,15 @@ func RunOracles(w *World, spec Spec) error {
 		if err := OSizeInMemory(w); err != nil {
 			return err
 		}
+	}
+	if spec.Has("iterloaded") {
+		if err := OIterLoaded(w); err != nil {
+			return err
+		}
+		if err := OReadOnlyMutation(w); err != nil {
+			return err
+		}
+		return nil
 	}
 	needCommit := spec.Has("reopen") || spec.Has("regs") || spec.Has("size") || spec.Has("rt") || spec.Has("health")
 	if !needCommit {
